@@ -103,8 +103,12 @@ def partitions(defs, maxfiles=3):
                 yield k, assign, deps
 
 
+FILE_STEMS = ['geometry', 'history', 'top']      # stems ending in letters of ".prophy" on purpose
+
+
 def file_texts(defs, k, assign, deps, include_all):
-    """-> [(filename, text)] ; file j includes every lower file it uses directly (or all lower files)."""
+    """-> [(filename, text)] ; file j includes every lower file it uses directly (or all lower files);
+    include_all == 'common' additionally makes every file include a declaration-free common file."""
     texts = []
     for j in range(k):
         mine = [i for i in range(len(defs)) if assign[i] == j]
@@ -115,9 +119,13 @@ def file_texts(defs, k, assign, deps, include_all):
                     need.add(assign[dep])
         if include_all:
             need = set(range(j))
-        lines = ['#include "f%d.prophy"' % f for f in sorted(need)]
+        lines = ['#include "%s.prophy"' % FILE_STEMS[f] for f in sorted(need)]
+        if include_all == 'common':
+            lines.insert(0, '#include "common.prophy"')
         lines += [S.render_def(defs[i]) for i in mine]
-        texts.append(('f%d.prophy' % j, '\n'.join(lines) + '\n'))
+        texts.append(('%s.prophy' % FILE_STEMS[j], '\n'.join(lines) + '\n'))
+    if include_all == 'common':
+        texts.insert(0, ('common.prophy', '// shared header without declarations\n/* nothing here */\n'))
     return texts
 
 
@@ -203,9 +211,9 @@ def judge(job):
         vals = dict((c, V.Values(ref, tier).enumerate(c, 12)[0]) for c in comps)
         for k, assign, deps in partitions(defs, 3):
             out['partitions'] += 1
-            for include_all in (False, True):
+            for include_all in (False, True, 'common'):
                 texts = file_texts(defs, k, assign, deps, include_all)
-                if include_all and texts == file_texts(defs, k, assign, deps, False):
+                if include_all is True and texts == file_texts(defs, k, assign, deps, False):
                     continue
                 for arrangement in ARRANGEMENTS:
                     root = T.fresh_dir('c16')
@@ -239,12 +247,13 @@ def judge(job):
                             for fn, _ in texts:
                                 stem = fn[:-7]
                                 mods[stem] = T.import_generated(os.path.join(outdir, stem + '.py'))
+                            stem_of = dict((j, FILE_STEMS[j]) for j in range(k))
                         except Exception as e:      # noqa
                             viol('generated-module-import-fails|%s|%s' % (arrangement, type(e).__name__), str(e)[:300], files,
                                  arrangement)
                             continue
                         for i, d in enumerate(defs):
-                            mod = mods['f%d' % assign[i]]
+                            mod = mods[stem_of[assign[i]]]
                             if isinstance(d, S.Const):
                                 if getattr(mod, d.name, None) != env[d.name] or getattr(smod, d.name) != env[d.name]:
                                     viol('constant-differs', '%s: multi %r single %r expected %r' % (
@@ -256,7 +265,7 @@ def judge(job):
                                              files, arrangement)
                             elif isinstance(d, (S.Struct, S.Union)):
                                 cls, scls = getattr(mod, d.name), getattr(smod, d.name)
-                                node = dict((n.name, n) for n in res.nodes['f%d' % assign[i]]).get(d.name)
+                                node = dict((n.name, n) for n in res.nodes[stem_of[assign[i]]]).get(d.name)
                                 lay = ref.layout(d.name)
                                 if (cls._SIZE, cls._ALIGNMENT) != (scls._SIZE, scls._ALIGNMENT) or node is None or \
                                         (node.byte_size, node.alignment) != (snodes[d.name].byte_size, snodes[d.name].alignment) or \
@@ -284,15 +293,19 @@ def judge(job):
                     root = T.fresh_dir('c16n')
                     try:
                         t2 = list(texts)
+                        first = 1 if t2[0][0] == 'common.prophy' else 0
                         if kind == 'cyclic':
-                            if '"f0.prophy"' not in t2[-1][1]:
-                                t2[-1] = (t2[-1][0], '#include "f0.prophy"\n' + t2[-1][1])
-                            t2[0] = (t2[0][0], '#include "f%d.prophy"\n' % (k - 1) + t2[0][1])
+                            if ('"%s.prophy"' % FILE_STEMS[0]) not in t2[-1][1]:
+                                t2[-1] = (t2[-1][0], '#include "%s.prophy"\n' % FILE_STEMS[0] + t2[-1][1])
+                            t2[first] = (t2[first][0], '#include "%s.prophy"\n' % FILE_STEMS[k - 1] + t2[first][1])
                         cwd, tail, outdir, paths = layout_on_disk(root, t2, 'same-dir')
                         if kind == 'missing':
                             if '#include' not in t2[-1][1]:
                                 continue
-                            victim = [fn for fn, _ in t2 if ('"%s"' % fn) in t2[-1][1]][0]
+                            victim = [fn for fn, _ in t2 if ('"%s"' % fn) in t2[-1][1] and fn != 'common.prophy']
+                            if not victim:
+                                continue
+                            victim = victim[0]
                             os.remove(paths[victim])
                             tail = [a for a in tail if not a.endswith(victim)]
                         os.chdir(cwd)
@@ -309,6 +322,68 @@ def judge(job):
                         os.chdir(home)
                         shutil.rmtree(root, ignore_errors=True)
         shutil.rmtree(single.outdir, ignore_errors=True)
+    except Exception:       # noqa
+        out['harness_error'] = traceback.format_exc()
+    finally:
+        os.chdir(home)
+    return out
+
+
+def judge_shadow(job):
+    """Two schema sets in two directories, each with its own, identically named include file, compiled in
+    one run: every main file must see the include of its own directory."""
+    pair, tier = job
+    T.setup_repo()
+    out = {'viol': [], 'runs': 0}
+    home = os.getcwd()
+    try:
+        (na, nb) = pair
+        root = T.fresh_dir('c16s')
+        outdir = os.path.join(root, 'out')
+        os.makedirs(outdir)
+        expect = {}
+        argv = ['--python_out', outdir, '--cpp_out', outdir]
+        for tag, bname in (('a', na), ('b', nb)):
+            defs = bases()[bname]
+            rdefs, env = resolve_consts(defs)
+            ref = R.Ref(rdefs)
+            d = os.path.join(root, 'dir_' + tag)
+            os.makedirs(d)
+            # rename everything so that both sets can live in one output directory
+            text_inc = '\n'.join(S.render_def(x) for x in defs[:-1]) + '\n'
+            text_main = '#include "defs.prophy"\n' + S.render_def(defs[-1]) + '\n'
+            for old, new in [(x.name, x.name + '_' + tag) for x in defs] + [
+                    (n, n + '_' + tag) for x in defs if isinstance(x, S.Enum) for n, v in x.members]:
+                import re
+                text_inc = re.sub(r'\b%s\b' % old, new, text_inc)
+                text_main = re.sub(r'\b%s\b' % old, new, text_main)
+            with open(os.path.join(d, 'defs.prophy'), 'w') as f:
+                f.write(text_inc)
+            with open(os.path.join(d, 'main_%s.prophy' % tag), 'w') as f:
+                f.write(text_main)
+            argv.append(os.path.join(d, 'main_%s.prophy' % tag))
+            lay = ref.layout(defs[-1].name)
+            expect['main_' + tag] = (defs[-1].name + '_' + tag, lay.size, lay.align)
+        for order in (argv, argv[:4] + [argv[5], argv[4]]):
+            res = T.run_prophyc(order)
+            out['runs'] += 1
+            files = {}
+            for tag in 'ab':
+                for fn in ('defs.prophy', 'main_%s.prophy' % tag):
+                    files['dir_%s/%s' % (tag, fn)] = open(os.path.join(root, 'dir_' + tag, fn)).read()
+            if not res.ok:
+                out['viol'].append(('same-named-includes-in-two-dirs|build-fails|%s' % res.exc_type,
+                                    {'base': '%s+%s' % pair, 'files': files, 'arrangement': 'shadow',
+                                     'detail': str(res.exc)[:300], 'shadow': list(pair)}))
+                continue
+            for stem, (tname, size, align) in expect.items():
+                node = dict((n.name, n) for n in res.nodes[stem]).get(tname)
+                if node is None or (node.byte_size, node.alignment) != (size, align):
+                    out['viol'].append(('same-named-includes-in-two-dirs|layout-differs',
+                                        {'base': '%s+%s' % pair, 'files': files, 'arrangement': 'shadow', 'shadow': list(pair),
+                                         'detail': '%s: model %s, expected %s' % (tname, node and (node.byte_size, node.alignment),
+                                                                                   (size, align))}))
+        shutil.rmtree(root, ignore_errors=True)
     except Exception:       # noqa
         out['harness_error'] = traceback.format_exc()
     finally:
@@ -333,6 +408,19 @@ def run(ctx):
             ctx.violation_counts[key] = ctx.violation_counts.get(key, 0) + 1
             if art is not None and len(ctx.violations.setdefault(key, [])) < 3:
                 ctx.violations[key].append(art)
+    import itertools as _it
+    pairs = [p for p in _it.permutations(names, 2)]
+    for res in ctx.pmap(judge_shadow, [(p, ctx.tier) for p in pairs]):
+        if 'harness_error' in res:
+            raise HarnessError(res['harness_error'])
+        ctx.cov['transitions'] += res['runs']
+        ctx.cov['evaluations'] += res['runs']
+        ctx.cov['traces_validated_against_impl'] += res['runs']
+        ctx.cov['same_named_include_runs'] = ctx.cov.get('same_named_include_runs', 0) + res['runs']
+        for key, art in res['viol']:
+            ctx.violation_counts[key] = ctx.violation_counts.get(key, 0) + 1
+            if len(ctx.violations.setdefault(key, [])) < 3:
+                ctx.violations[key].append(art)
     for key in [k for k, v in ctx.violations.items() if not v]:
         del ctx.violations[key]
     ctx.cov['rule'] = ('states = (base schema, partition): %d base schemas x every assignment of their declarations to 2 or 3 '
@@ -346,6 +434,11 @@ def run(ctx):
 
 def replay(art):
     T.setup_repo()
+    if art.get('shadow'):
+        out = judge_shadow((tuple(art['shadow']), 'quick'))
+        if out['viol']:
+            return 'two directories with an identically named include: %s' % (out['viol'][0],)
+        return None
     root = T.fresh_dir('c16r')
     home = os.getcwd()
     try:
